@@ -173,7 +173,17 @@ func TestConstructed(t *testing.T) {
 			kit.R.Class("model-not-serialisable")
 			return
 		}
-		want := renderBlocks(d.Blocks, false)
+		blocks := d.Blocks
+		if len(z.extraParas) > 0 {
+			blocks = nil
+			for k := 0; k <= len(d.Blocks); k++ {
+				blocks = append(blocks, z.extraParas[k]...)
+				if k < len(d.Blocks) {
+					blocks = append(blocks, d.Blocks[k])
+				}
+			}
+		}
+		want := renderBlocks(blocks, false)
 		if nearMissCount > 0 {
 			kit.R.ClassN("spelling:near-miss-continuation-line", int64(nearMissCount))
 			nearMissCount = 0
